@@ -115,16 +115,34 @@ func stringArgs(fd *ast.FuncDecl, fn string) []string {
 	return out
 }
 
-// intComparisons: integer literals on the right of `>` comparisons in a function, in order.
+// gtIntLits: the largest integer that does NOT satisfy each `x > N` / `x >= N` / `N < x` / `N <= x` comparison with an integer
+// literal in a function, in order (`x > 500` and `x >= 501` both give 500): the size gate is read by its meaning, so that a
+// moved boundary changes the generated limit (and breaks the lemma that pins it to the documented value) instead of stopping the translator.
 func gtIntLits(fd *ast.FuncDecl) []string {
 	var out []string
 	ast.Inspect(fd, func(n ast.Node) bool {
 		b, ok := n.(*ast.BinaryExpr)
-		if !ok || b.Op != token.GTR {
+		if !ok {
 			return true
 		}
-		if l, ok := b.Y.(*ast.BasicLit); ok && l.Kind == token.INT {
-			if s, ok := coqZ(constant.MakeFromLiteral(l.Value, l.Kind, 0)); ok {
+		lit, strict := b.Y, true
+		switch b.Op {
+		case token.GTR:
+		case token.GEQ:
+			strict = false
+		case token.LSS:
+			lit = b.X
+		case token.LEQ:
+			lit, strict = b.X, false
+		default:
+			return true
+		}
+		if l, ok := lit.(*ast.BasicLit); ok && l.Kind == token.INT {
+			v := constant.MakeFromLiteral(l.Value, l.Kind, 0)
+			if !strict {
+				v = constant.BinaryOp(v, token.SUB, constant.MakeInt64(1))
+			}
+			if s, ok := coqZ(v); ok {
 				out = append(out, s)
 			}
 		}
